@@ -475,13 +475,13 @@ impl<'a> Runner<'a> {
     fn step_req(&mut self, k: usize, req: &Req) -> Result<usize, Viol> {
         let (g, c) = (self.g, self.c);
         exec(&mut self.r, req).map_err(|e| Viol { class: "op-result".into(), detail: json!({"error": e}) })?;
-        let st = project(g, c, &self.r).map_err(|e| Viol { class: "structure".into(), detail: json!({"error": e}) })?;
         let node = &g.nodes[self.cur];
         // Property level first: the admissible sets depend only on the abstract store, which is the same in
         // every successor the spec allows for this operation, so the probes can be judged even when the
         // internal structures turn out not to be what the spec says.
         let judge = if node.succ[k].is_empty() { self.cur } else { node.succ[k][0] };
         check_probes(c, &self.r, &g.nodes[judge], false, self.stats)?;
+        let st = project(g, c, &self.r).map_err(|e| Viol { class: "structure".into(), detail: json!({"error": e}) })?;
         let next = if node.succ[k].is_empty() {
             if st != node.st {
                 return Err(Viol { class: "noop-changed-state".into(), detail: json!({"real": st.to_json(), "spec": node.st.to_json()}) });
